@@ -4,7 +4,9 @@
 package topologyaware
 
 import (
+	"reflect"
 	"sort"
+	"strings"
 
 	"github.com/containers/nri-plugins/pkg/resmgr/cache"
 	policyapi "github.com/containers/nri-plugins/pkg/resmgr/policy"
@@ -214,4 +216,64 @@ func VerifPrefs(ci interface{}) *VReq {
 	r.InShared, k = sharedCPUsPreference(pod, c)
 	r.InSharedKind = int(k)
 	return r
+}
+
+// VProbe is the outcome of one release-and-put-back round on the live policy: what UpdateResources does
+// when the new allocation is refused (releasePool, updateSharedAllocations, reinstateGrants(.., true)).
+type VProbe struct {
+	ID       string `json:"id"`
+	Err      string `json:"err,omitempty"`
+	CPUSide  bool   `json:"cpu_side"`  // the refusal came from supply.reserve's CPU tests
+	Same     bool   `json:"same"`      // pools and the CPU part of every grant are what they were
+	FillsPool bool  `json:"fills_pool"` // the grant used its pool's sharable capacity to the last milli-CPU
+}
+
+func vCPUState(p *policy) ([]VPool, map[string]VGrant) {
+	s := VerifSnapshot(p)
+	gs := map[string]VGrant{}
+	for _, g := range s.Grants {
+		g.MemZone, g.MemSize = nil, 0
+		gs[g.ID] = g
+	}
+	return s.Pools, gs
+}
+
+// VerifRestoreProbe releases every grant in turn and puts it back the way a refused update does. It changes
+// the policy (memory zones may move), so the harness calls it only after the last event of a history.
+func VerifRestoreProbe(b policyapi.Backend) []VProbe {
+	p, ok := b.(*policy)
+	if !ok || p.root == nil {
+		return nil
+	}
+	ids := []string{}
+	for id := range p.allocations.grants {
+		ids = append(ids, id)
+	}
+	sort.Strings(ids)
+	out := []VProbe{}
+	for _, id := range ids {
+		g := p.allocations.grants[id]
+		pools0, grants0 := vCPUState(p)
+		free := g.GetCPUNode().FreeSupply().(*supply)
+		pr := VProbe{ID: id, FillsPool: g.CPUType() == cpuNormal && free.AllocatableSharedCPU() == 0}
+		grant, found := p.releasePool(g.GetContainer())
+		if !found {
+			continue
+		}
+		p.updateSharedAllocations(&grant)
+		err := p.reinstateGrants(map[string]Grant{id: grant}, true)
+		if err != nil {
+			pr.Err = err.Error()
+			pr.CPUSide = strings.Contains(pr.Err, "can't reserve")
+			out = append(out, pr)
+			break // the state is no longer the one the history reached
+		}
+		pools1, grants1 := vCPUState(p)
+		pr.Same = reflect.DeepEqual(pools0, pools1) && reflect.DeepEqual(grants0, grants1)
+		out = append(out, pr)
+		if !pr.Same {
+			break
+		}
+	}
+	return out
 }
